@@ -1132,10 +1132,20 @@ static void summarize(struct hwloc_backend *backend, struct procinfo *infos, uns
 
 	    hwloc_bitmap_copy(remaining_cpuset, complete_cpuset);
 	    while ((i = hwloc_bitmap_first(remaining_cpuset)) != (unsigned) -1) {
-	      unsigned unknownid = infos[i].otherids[level];
+	      unsigned unknownid;
+
+	      if (!infos[i].otherids || level >= infos[i].levels) {
+		/* this PU didn't report that level */
+		hwloc_bitmap_clr(remaining_cpuset, i);
+		continue;
+	      }
+	      unknownid = infos[i].otherids[level];
 
 	      unknown_cpuset = hwloc_bitmap_alloc();
 	      for (j = i; j < nbprocs; j++) {
+		if (!infos[j].otherids || level >= infos[j].levels)
+		  /* PU not looked at (e.g. outside of the binding), or without that level */
+		  continue;
 		if (infos[j].otherids[level] == unknownid) {
 		  hwloc_bitmap_set(unknown_cpuset, j);
 		  hwloc_bitmap_clr(remaining_cpuset, j);
